@@ -52,6 +52,7 @@ theorem startOp_clean (s : Shared) (log : List Obs) (rest : List COp) (op : COp)
     · rename_i s' o heq
       rw [heq] at hr
       exact ⟨hr.1, hl.snoc⟩
+  | pure => exact ⟨h, hl.snoc⟩
   | dtype =>
     simp only [startOp]
     split
